@@ -179,7 +179,11 @@ fn exponent() -> BoxedStrategy<Vec<u64>> {
             for (i, x) in w.iter().enumerate() { d[i / 16] |= x << (4 * (i % 16)); }
             gen::trim(d)
         }),
-        15 => gen::nat(2),
+        10 => gen::nat(2),
+        // several zero low digits (the even-modulus path squares once per skipped bit; counts above 255 matter)
+        10 => (0usize..=7, prop_oneof![Just(vec![1u64]), Just(vec![3u64]), Just(vec![1u64 << 63]), gen::nat_nonzero(1), Just(vec![0u64, 1])]).prop_map(|(z, hi)| {
+            let mut v = vec![0u64; z]; v.extend(hi); gen::trim(v)
+        }),
     ]
     .boxed()
 }
